@@ -279,12 +279,13 @@ def execute(spec: Dict[str, Any], ctx: Ctx) -> None:
                 conv = (lambda s: s) if form == "builder_str" else (lambda s: JSONPointer(s))
                 for o in ops:
                     name = o["op"]
+                    # a chain: each call is made on what the previous one returned
                     if name in ("add", "addne", "addap", "replace", "test"):
-                        getattr(p, name)(conv(o["path"]), o["value"])
+                        p = getattr(p, name)(conv(o["path"]), o["value"])
                     elif name == "remove":
-                        p.remove(conv(o["path"]))
+                        p = p.remove(conv(o["path"]))
                     else:
-                        getattr(p, name)(conv(o["from"]), conv(o["path"]))
+                        p = getattr(p, name)(conv(o["from"]), conv(o["path"]))
             elif form == "asdicts":
                 basep = next((q for q in reversed(all_patches) if q.L == L), None)
                 if basep is None:
@@ -295,6 +296,12 @@ def execute(spec: Dict[str, Any], ctx: Ctx) -> None:
         except (core.HarnessError, Violation):
             raise
         except Exception as e:  # noqa: BLE001
+            if form in ("tuple", "generator"):
+                # "the JSON document form" is a list of dicts; other iterables of dicts are this harness's
+                # extension of it: if the constructor refuses them outright, there is nothing to compare
+                ctx.count("probe.iterable_form_refused")
+                ctx.log.add("build-refused", L, form, type(e).__name__)
+                return build(L, "dicts")
             raise Violation(
                 "C15.effect",
                 f"building operation list {L} in form {form!r} raised {type(e).__name__}: {e}; ops={core.short(oplists[L], 300)}",
